@@ -23,11 +23,14 @@ CONSTANTS
     Level,                  \* request alphabet of the exhaustive exploration: "quick" | "thorough"
     FixAssoc,               \* TRUE: associations follow accepted definitions (fix 1); FALSE: code as found
     FixTplLast,             \* TRUE: a template is saved after its tasks accepted it (fix 2); FALSE: code as found
+    FixRollback,            \* TRUE: the rollback of a template update restores each task's own dbrps (fix 3)
     Known                   \* crash deviation classes tolerated (named known findings)
 
 VARIABLES
     T, P, A,                \* durable: tasks, templates, associations
     X,                      \* volatile: executing tasks (TaskMaster.tasks)
+    run,                    \* volatile: what an executing task was started with: the db.rp it is subscribed to
+                            \* ("batch" for a batch task, "" when not executing) - a PATCH does not reload it
     up,                     \* environment: the InfluxDB cluster some tasks need at start is reachable
     att, lastOK,            \* ghost: ids with a start attempt since they are enabled, outcome of the last one
     acc, accP, mem,         \* Ref: accepted definitions, accepted templates, template membership
@@ -36,7 +39,7 @@ VARIABLES
                             \* from then on there is no accepted catalogue to compare with, Ref just follows what is visible
     n, crashes
 
-vars == <<T, P, A, X, up, att, lastOK, acc, accP, mem, last, taint, n, crashes>>
+vars == <<T, P, A, X, run, up, att, lastOK, acc, accP, mem, last, taint, n, crashes>>
 
 Range(s) == { s[i] : i \in DOMAIN s }
 TaskIds == Range(TaskOrder)
@@ -48,11 +51,18 @@ NoTask == [none |-> TRUE]
 (* s1,s2 plain; sv needs var v; sx does not compile; sf needs the cluster at start;  *)
 (* sb is a batch task querying db1.rp1: StartBatching fails unless its dbrps are d1;  *)
 (* q1,q2 template scripts with defaulted vars; qv needs var v; qf needs the cluster.  *)
+\* si, qi, qf declare their dbrp in the script (dbrp "db3"."rp3" = d3): the task's dbrps are DERIVED from it;
+\* sb, qb are batch scripts: the task's type is derived from the script as well.
+Type(s) == IF s \in {"sb", "qb"} THEN "batch" ELSE "stream"
+Implicit(s) == IF s \in {"si", "qi", "qf"} THEN "d3" ELSE "none"
 NeedsVar(s) == s \in {"sv", "qv"}
 Compiles(s) == s \notin {"sx", ""}
 \* r: a task record or definition (script, dbrps are read)
-StartOK(r) == /\ (r.script \in {"sf", "qf"} => up)
-              /\ (r.script = "sb" => r.dbrps = "d1")
+StartOK(r) == /\ r.dbrps # "none"                          \* tm.StartTask: "task does contain any dbrps"
+              /\ (r.script \in {"sf", "qf"} => up)
+              /\ (r.script \in {"sb", "qb"} => r.dbrps = "d1")
+\* what an executing task started from r is subscribed to
+SubOf(r) == IF r.type = "batch" THEN "batch" ELSE r.dbrps
 ValidRec(r) == Compiles(r.script) /\ (NeedsVar(r.script) => r.vars # "none")
 
 OrNone(s) == IF s = "" THEN "none" ELSE s
@@ -61,7 +71,7 @@ Status(s) == IF s = "enabled" THEN "enabled" ELSE "disabled"
 (* ---------- the machine a handler runs on ---------- *)
 Dur(m) == [T |-> m.T, P |-> m.P, A |-> m.A]
 Commit(m) == [m EXCEPT !.tr = Append(@, Dur(m))]
-Mach(d, x, at, ok) == [T |-> d.T, P |-> d.P, A |-> d.A, X |-> x, att |-> at, lastOK |-> ok,
+Mach(d, x, rn, at, ok) == [T |-> d.T, P |-> d.P, A |-> d.A, X |-> x, run |-> rn, att |-> at, lastOK |-> ok,
                        tr |-> <<>>, sfail |-> FALSE]
 
 TPut(m, t, r) == Commit([m EXCEPT !.T[t] = r])
@@ -74,7 +84,7 @@ PPut(m, p, s) == Commit([m EXCEPT !.P[p] = s])
 \* templates.Delete removes the template, its index entry and every association under it
 PDel(m, p) == Commit([m EXCEPT !.P[p] = "none", !.A = { a \in @ : a[1] # p }])
 NopTx(m) == Commit(m)      \* snapshots.Delete
-Stop(m, t) == [m EXCEPT !.X = @ \ {t}]
+Stop(m, t) == [m EXCEPT !.X = @ \ {t}, !.run[t] = ""]
 
 \* Service.startTask: newKapacitorTask; saveLastError(""); tm.StartTask; on failure saveLastError(err)
 StartTask(m, t, r) ==
@@ -82,7 +92,7 @@ StartTask(m, t, r) ==
     THEN [m EXCEPT !.att = @ \cup {t}, !.lastOK[t] = FALSE, !.sfail = TRUE]
     ELSE LET m1 == TErr(m, t, FALSE) IN
          IF StartOK(r)
-         THEN [m1 EXCEPT !.X = @ \cup {t}, !.att = @ \cup {t}, !.lastOK[t] = TRUE]
+         THEN [m1 EXCEPT !.X = @ \cup {t}, !.run[t] = SubOf(r), !.att = @ \cup {t}, !.lastOK[t] = TRUE]
          ELSE [TErr(m1, t, TRUE) EXCEPT !.att = @ \cup {t}, !.lastOK[t] = FALSE, !.sfail = TRUE]
 
 Res(m, code) == [m |-> m, code |-> code]
@@ -95,12 +105,17 @@ HCreateTask(m, q) ==
     IF m.T[t] # NoTask THEN Res(m, 400)
     ELSE IF fromTpl /\ m.P[q.tpl] = "none" THEN Res(m, 400)
     ELSE
-    LET r == [script |-> IF fromTpl THEN m.P[q.tpl] ELSE q.script, dbrps |-> OrNone(q.dbrps),
+    LET script == IF fromTpl THEN m.P[q.tpl] ELSE q.script
+        imp == Implicit(script)
+        req == OrNone(q.dbrps)
+        \* type and dbrps are derived from the script: a declared dbrp is the task's dbrp, and then
+        \* none may be given in the request; without a declaration one must be given
+        r == [script |-> script, type |-> Type(script), dbrps |-> IF imp # "none" THEN imp ELSE req,
               vars |-> OrNone(q.vars), status |-> Status(q.status),
               tpl |-> IF fromTpl THEN q.tpl ELSE "none", err |-> FALSE]
         m1 == IF fromTpl /\ ~FixAssoc THEN Assoc(m, q.tpl, t) ELSE m     \* as found: before validation
     IN
-    IF ~ValidRec(r) \/ r.dbrps = "none" THEN Res(m1, 400)
+    IF ~ValidRec(r) \/ (imp = "none" /\ req = "none") \/ (imp # "none" /\ req # "none") THEN Res(m1, 400)
     ELSE
     LET m2 == IF fromTpl /\ FixAssoc THEN Assoc(m1, q.tpl, t) ELSE m1
         m3 == TPut(m2, t, r)
@@ -121,8 +136,13 @@ HUpdateTask(m, q) ==
     IN
     IF templated /\ m.P[p] = "none" THEN Res(m, 400)
     ELSE
-    LET upd == [script |-> IF templated THEN m.P[p] ELSE IF q.script # "" THEN q.script ELSE orig.script,
-                dbrps |-> IF q.dbrps # "" THEN q.dbrps ELSE orig.dbrps,
+    LET script == IF templated THEN m.P[p] ELSE IF q.script # "" THEN q.script ELSE orig.script
+        imp == Implicit(script)
+        \* a plain task that gives up a script with a declared dbrp must be told its dbrps
+        mustSpecify == ~templated /\ q.script # "" /\ Implicit(orig.script) # "none" /\ imp = "none" /\ q.dbrps = ""
+        both == imp # "none" /\ q.dbrps # ""
+        upd == [script |-> script, type |-> Type(script),
+                dbrps |-> IF imp # "none" THEN imp ELSE IF q.dbrps # "" THEN q.dbrps ELSE orig.dbrps,
                 vars |-> IF q.vars # "" THEN q.vars ELSE orig.vars,
                 status |-> IF q.status # "" THEN q.status ELSE orig.status,
                 tpl |-> IF templated THEN p ELSE "none",
@@ -135,7 +155,7 @@ HUpdateTask(m, q) ==
                 THEN Assoc(IF orig.tpl # "none" THEN Disassoc(m, orig.tpl, t) ELSE m, p, newId)
                 ELSE m
     IN
-    IF ~ValidRec(upd) THEN Res(mOld, 400)
+    IF ~ValidRec(upd) \/ mustSpecify \/ both THEN Res(mOld, 400)
     ELSE IF FixAssoc /\ rename /\ m.T[newId] # NoTask THEN Res(m, 500)
     ELSE
     LET reassoc == FixAssoc /\ (rename \/ orig.tpl # upd.tpl)
@@ -195,7 +215,10 @@ TplLoop(m, ids, i, oldId, newId, oldS, newS) ==
     ELSE IF FixAssoc /\ r.tpl # oldId THEN TplLoop(Disassoc(m, oldId, t), ids, i + 1, oldId, newId, oldS, newS)
     ELSE
     LET m1 == IF oldId # newId THEN Assoc(m, newId, t) ELSE m
-        nr == [r EXCEPT !.tpl = newId, !.script = newS]
+        \* when the old or the new template script declares a dbrp, the task's dbrps become the new
+        \* script's declaration (possibly none at all)
+        nr == [r EXCEPT !.tpl = newId, !.script = newS, !.type = Type(newS),
+                        !.dbrps = IF Implicit(oldS) # "none" \/ Implicit(newS) # "none" THEN Implicit(newS) ELSE @]
         m2 == TPut(m1, t, nr)
     IN
     IF r.status = "enabled"
@@ -205,21 +228,25 @@ TplLoop(m, ids, i, oldId, newId, oldS, newS) ==
     ELSE TplLoop(m2, ids, i + 1, oldId, newId, oldS, newS)
 
 \* the deferred rollback: tasks ids[1..upto] back to the old template (errors only logged)
-RECURSIVE TplRollback(_, _, _, _, _, _, _)
-TplRollback(m, ids, j, upto, oldId, newId, oldS) ==
+RECURSIVE TplRollback(_, _, _, _, _, _, _, _)
+TplRollback(m, ids, j, upto, oldId, newId, oldS, T0) ==
     IF j > upto THEN m
     ELSE
     LET t == ids[j]
         r == m.T[t]
     IN
-    IF r = NoTask THEN TplRollback(m, ids, j + 1, upto, oldId, newId, oldS)
-    ELSE IF FixAssoc /\ r.tpl # newId THEN TplRollback(m, ids, j + 1, upto, oldId, newId, oldS)
+    IF r = NoTask THEN TplRollback(m, ids, j + 1, upto, oldId, newId, oldS, T0)
+    ELSE IF FixAssoc /\ r.tpl # newId THEN TplRollback(m, ids, j + 1, upto, oldId, newId, oldS, T0)
     ELSE
     LET m0 == IF FixTplLast /\ oldId # newId THEN Disassoc(m, newId, t) ELSE m
-        orr == [r EXCEPT !.tpl = oldId, !.script = oldS]
+        \* as found: the dbrps are only put back when the OLD script declares them; a task with its own
+        \* dbrps keeps the declaration of the rejected script.  Fixed: the dbrps it had before the loop (T0)
+        orr == [r EXCEPT !.tpl = oldId, !.script = oldS, !.type = Type(oldS),
+                         !.dbrps = IF FixRollback THEN (IF T0[t] # NoTask THEN T0[t].dbrps ELSE @)
+                                   ELSE IF Implicit(oldS) # "none" THEN Implicit(oldS) ELSE @]
         m1 == TPut(m0, t, orr)
         m2 == IF r.status = "enabled" THEN StartTask(Stop(m1, t), t, orr) ELSE m1
-    IN TplRollback(m2, ids, j + 1, upto, oldId, newId, oldS)
+    IN TplRollback(m2, ids, j + 1, upto, oldId, newId, oldS, T0)
 
 HUpdateTpl(m, q) ==
     LET p == q.id IN
@@ -231,7 +258,8 @@ HUpdateTpl(m, q) ==
         ids == AssocSeq(m, p)
         Save(mm) == IF newId # p THEN PDel(PPut(mm, newId, newS), p) ELSE PPut(mm, p, newS)
     IN
-    IF ~Compiles(newS) THEN Res(m, 400)
+    \* the template keeps its type (the request carries none): a script of the other type does not compile in it
+    IF ~Compiles(newS) \/ Type(newS) # Type(oldS) THEN Res(m, 400)
     ELSE IF newId # p /\ m.P[newId] # "none" THEN Res(m, 500)
     ELSE
     LET m1 == IF FixTplLast THEN m ELSE Save(m)
@@ -239,7 +267,7 @@ HUpdateTpl(m, q) ==
     IN
     IF lp.failedAt = 0
     THEN Res([(IF FixTplLast THEN Save(lp.m) ELSE lp.m) EXCEPT !.sfail = FALSE], 200)
-    ELSE Res([TplRollback(lp.m, ids, 1, lp.failedAt, p, newId, oldS) EXCEPT !.sfail = TRUE], 500)
+    ELSE Res([TplRollback(lp.m, ids, 1, lp.failedAt, p, newId, oldS, m.T) EXCEPT !.sfail = TRUE], 500)
 
 Handle(m, q) ==
     CASE q.op = "CreateTask" -> HCreateTask(m, q)
@@ -258,11 +286,12 @@ OpenLoop(m, i) ==
          IN IF r # NoTask /\ r.status = "enabled" THEN OpenLoop(StartTask(m, t, r), i + 1)
             ELSE OpenLoop(m, i + 1)
 NoneOK == [t \in TaskIds |-> FALSE]
-Reopen(d) == OpenLoop(Mach(d, {}, {}, NoneOK), 1)
+NoRun == [t \in TaskIds |-> ""]
+Reopen(d) == OpenLoop(Mach(d, {}, NoRun, {}, NoneOK), 1)
 
 (* ================= Ref: what the property promises ================= *)
 DefOf(r) == IF r = NoTask THEN NoTask
-            ELSE [script |-> r.script, dbrps |-> r.dbrps, vars |-> r.vars, status |-> r.status, tpl |-> r.tpl]
+            ELSE [script |-> r.script, type |-> r.type, dbrps |-> r.dbrps, vars |-> r.vars, status |-> r.status, tpl |-> r.tpl]
 ValidDef(d) == Compiles(d.script) /\ (NeedsVar(d.script) => d.vars # "none")
 Cat(tt) == [t \in TaskIds |-> DefOf(tt[t])]
 
@@ -270,16 +299,23 @@ RefRes(a, ap, mm, ok) == [acc |-> a, accP |-> ap, mem |-> mm, accepted |-> ok]
 Rejected(a, ap, mm) == RefRes(a, ap, mm, FALSE)
 
 \* the definitions a template update aims at, whether or not it is accepted
-TplTarget(a, mm, p, newId, newS) ==
-    [t \in TaskIds |-> IF <<p, t>> \in mm /\ a[t] # NoTask THEN [a[t] EXCEPT !.script = newS, !.tpl = newId] ELSE a[t]]
+TplTarget(a, mm, p, newId, newS, oldS) ==
+    [t \in TaskIds |-> IF <<p, t>> \in mm /\ a[t] # NoTask
+                       THEN [a[t] EXCEPT !.script = newS, !.tpl = newId, !.type = Type(newS),
+                                         !.dbrps = IF Implicit(oldS) # "none" \/ Implicit(newS) # "none"
+                                                   THEN Implicit(newS) ELSE @]
+                       ELSE a[t]]
 
 RefStep(a, ap, mm, q) ==
     CASE q.op = "CreateTask" ->
             LET fromTpl == q.tpl # ""
-                d == [script |-> IF fromTpl THEN ap[q.tpl] ELSE q.script, dbrps |-> OrNone(q.dbrps),
+                sc == IF fromTpl THEN ap[q.tpl] ELSE q.script
+                \* documented: the dbrps are given in the request or declared in the script, not both, not neither
+                d == [script |-> sc, type |-> Type(sc),
+                      dbrps |-> IF Implicit(sc) # "none" THEN Implicit(sc) ELSE OrNone(q.dbrps),
                       vars |-> OrNone(q.vars), status |-> Status(q.status), tpl |-> IF fromTpl THEN q.tpl ELSE "none"]
             IN IF a[q.id] # NoTask \/ (fromTpl /\ ap[q.tpl] = "none") \/ d.script = "none" THEN Rejected(a, ap, mm)
-               ELSE IF ~ValidDef(d) \/ d.dbrps = "none" THEN Rejected(a, ap, mm)
+               ELSE IF ~ValidDef(d) \/ d.dbrps = "none" \/ (Implicit(sc) # "none" /\ q.dbrps # "") THEN Rejected(a, ap, mm)
                ELSE RefRes([a EXCEPT ![q.id] = d], ap, IF fromTpl THEN mm \cup {<<q.tpl, q.id>>} ELSE mm, TRUE)
       [] q.op = "UpdateTask" ->
             IF a[q.id] = NoTask THEN Rejected(a, ap, mm)
@@ -291,13 +327,17 @@ RefStep(a, ap, mm, q) ==
             IN
             IF templated /\ ap[p] = "none" THEN Rejected(a, ap, mm)
             ELSE
-            LET d == [script |-> IF templated THEN ap[p] ELSE IF q.script # "" THEN q.script ELSE o.script,
-                      dbrps |-> IF q.dbrps # "" THEN q.dbrps ELSE o.dbrps,
+            LET sc == IF templated THEN ap[p] ELSE IF q.script # "" THEN q.script ELSE o.script
+                d == [script |-> sc, type |-> Type(sc),
+                      dbrps |-> IF Implicit(sc) # "none" THEN Implicit(sc) ELSE IF q.dbrps # "" THEN q.dbrps ELSE o.dbrps,
                       vars |-> IF q.vars # "" THEN q.vars ELSE o.vars,
                       status |-> IF q.status # "" THEN q.status ELSE o.status,
                       tpl |-> IF templated THEN p ELSE "none"]
             IN
-            IF ~ValidDef(d) \/ (newId # q.id /\ a[newId] # NoTask) THEN Rejected(a, ap, mm)
+            IF ~ValidDef(d) \/ (newId # q.id /\ a[newId] # NoTask)
+               \/ (Implicit(sc) # "none" /\ q.dbrps # "")
+               \/ (~templated /\ q.script # "" /\ Implicit(o.script) # "none" /\ Implicit(sc) = "none" /\ q.dbrps = "")
+            THEN Rejected(a, ap, mm)
             ELSE RefRes([a EXCEPT ![q.id] = NoTask, ![newId] = d], ap,
                         \* membership follows the definition when the id or the template changes
                         IF newId # q.id \/ o.tpl # d.tpl
@@ -318,12 +358,12 @@ RefStep(a, ap, mm, q) ==
             LET p == q.id
                 newId == IF q.newid # "" THEN q.newid ELSE p
                 newS == IF q.script # "" THEN q.script ELSE ap[p]
-                tgt == TplTarget(a, mm, p, newId, newS)
+                tgt == TplTarget(a, mm, p, newId, newS, ap[p])
                 members == { t \in TaskIds : <<p, t>> \in mm /\ a[t] # NoTask }
                 \* every enabled task of the template is reloaded and must accept the new definition
                 canAll == \A t \in members : tgt[t].status = "enabled" => (ValidDef(tgt[t]) /\ StartOK(tgt[t]))
             IN
-            IF ~Compiles(newS) \/ (newId # p /\ ap[newId] # "none") \/ ~canAll THEN Rejected(a, ap, mm)
+            IF ~Compiles(newS) \/ Type(newS) # Type(ap[p]) \/ (newId # p /\ ap[newId] # "none") \/ ~canAll THEN Rejected(a, ap, mm)
             ELSE RefRes(tgt, [ap EXCEPT ![p] = "none", ![newId] = newS],
                         { x \in mm : x[1] # p } \cup { <<newId, t>> : t \in members }, TRUE)
 
@@ -332,8 +372,8 @@ Q(op, id, newid, tpl, script, dbrps, vs, status) ==
     [op |-> op, id |-> id, newid |-> newid, tpl |-> tpl, script |-> script, dbrps |-> dbrps, vars |-> vs, status |-> status]
 
 Pairs(S) == { x \in S \X S : x[1] # x[2] }
-TaskScripts == IF Level = "quick" THEN {"s1", "sv", "sx"} ELSE {"s1", "sv", "sx", "sf", "sb"}
-TplScripts == IF Level = "quick" THEN {"q1", "qv"} ELSE {"q1", "q2", "qv", "qf"}
+TaskScripts == IF Level = "quick" THEN {"s1", "sv", "sx", "si"} ELSE {"s1", "sv", "sx", "sf", "sb", "si"}
+TplScripts == IF Level = "quick" THEN {"q1", "qv", "qi"} ELSE {"q1", "qv", "qf", "qi", "qb"}
 
 CreateReqs ==
     { Q("CreateTask", t, "", "", s, "d1", v, st) :
@@ -343,7 +383,7 @@ CreateReqs ==
     \cup { Q("CreateTask", t, "", p, "", "", "", "") : t \in TaskIds, p \in TplIds }     \* rejected: no dbrps
 UpdateReqs ==
     { Q("UpdateTask", t, "", "", s, "", "", "") : t \in TaskIds, s \in TaskScripts }
-    \cup { Q("UpdateTask", t, "", p, "", "", "", "") : t \in TaskIds, p \in TplIds }
+    \cup { Q("UpdateTask", t, "", p, "", d, "", "") : t \in TaskIds, p \in TplIds, d \in {"", "d2"} }
     \cup { Q("UpdateTask", t, "", "", "", "d2", "", "") : t \in TaskIds }
     \cup { Q("UpdateTask", t, "", "", "", "", v, "") : t \in TaskIds, v \in {"vx", "vy"} }
     \cup { Q("UpdateTask", t, "", "", "", "", "", st) : t \in TaskIds, st \in {"enabled", "disabled"} }
@@ -364,7 +404,7 @@ L(kind, ok, accepted, sfail, tplid, class) ==
     [kind |-> kind, ok |-> ok, accepted |-> accepted, sfail |-> sfail, tplid |-> tplid, class |-> class, mems |-> {}]
 
 Init ==
-    /\ T = Empty.T /\ P = Empty.P /\ A = {} /\ X = {}
+    /\ T = Empty.T /\ P = Empty.P /\ A = {} /\ X = {} /\ run = NoRun
     /\ up = TRUE
     /\ att = {} /\ lastOK = NoneOK
     /\ acc = Empty.T /\ accP = Empty.P /\ mem = {}
@@ -372,10 +412,10 @@ Init ==
     /\ taint = FALSE
     /\ n = 0 /\ crashes = 0
 
-Cur == Mach([T |-> T, P |-> P, A |-> A], X, att, lastOK)
+Cur == Mach([T |-> T, P |-> P, A |-> A], X, run, att, lastOK)
 
 Install(m) ==
-    /\ T' = m.T /\ P' = m.P /\ A' = m.A /\ X' = m.X
+    /\ T' = m.T /\ P' = m.P /\ A' = m.A /\ X' = m.X /\ run' = m.run
     \* a start attempt is remembered for as long as the id stays enabled
     /\ att' = { t \in m.att : m.T[t] # NoTask /\ m.T[t].status = "enabled" }
     /\ lastOK' = m.lastOK
@@ -408,7 +448,7 @@ CrashClass(q, a0, ap0, mm0, o) ==
                 THEN [ap0 EXCEPT ![q.id] = "none", ![newTplId] = IF q.script # "" THEN q.script ELSE ap0[q.id]]
                 ELSE ap0
         tgtT == IF q.op = "UpdateTpl" /\ ap0[q.id] # "none"
-                THEN TplTarget(a0, mm0, q.id, newTplId, IF q.script # "" THEN q.script ELSE ap0[q.id])
+                THEN TplTarget(a0, mm0, q.id, newTplId, IF q.script # "" THEN q.script ELSE ap0[q.id], ap0[q.id])
                 ELSE a0
     IN
     \* visible or not: but then the associations the visible tasks rely on must be there as well
@@ -450,7 +490,7 @@ Restart ==
 SetEnv(b) ==
     /\ up' = b
     /\ last' = L("env", TRUE, TRUE, FALSE, "", "")
-    /\ UNCHANGED <<T, P, A, X, att, lastOK, acc, accP, mem, crashes, taint>>
+    /\ UNCHANGED <<T, P, A, X, run, att, lastOK, acc, accP, mem, crashes, taint>>
 
 Next ==
     /\ n < MaxReq
@@ -462,7 +502,7 @@ Next ==
 Spec == Init /\ [][Next]_vars
 
 (* ================= properties ================= *)
-TaskRecs == [script : STRING, dbrps : STRING, vars : STRING, status : {"enabled", "disabled"}, tpl : STRING, err : BOOLEAN]
+TaskRecs == [script : STRING, type : {"stream", "batch"}, dbrps : STRING, vars : STRING, status : {"enabled", "disabled"}, tpl : STRING, err : BOOLEAN]
 TypeOK ==
     /\ \A t \in TaskIds : T[t] = NoTask \/ T[t] \in TaskRecs
     /\ \A p \in TplIds : P[p] \in STRING
@@ -484,10 +524,20 @@ ExecutingIffEnabledStarted ==
     /\ \A t \in TaskIds : Enabled(t) => t \in att
     /\ \A t \in att : (t \in X) <=> lastOK[t]
 
-\* after a restart (clean or after a crash) every enabled task whose start succeeds is executing
+\* after a restart (clean or after a crash) every enabled task whose start succeeds is executing,
+\* and it executes the stored definition (type, subscription)
 RestartRestoresExecuting ==
     last.kind \in {"restart", "crash"} =>
-        X = { t \in TaskIds : Enabled(t) /\ ValidRec(T[t]) /\ StartOK(T[t]) }
+        /\ X = { t \in TaskIds : Enabled(t) /\ ValidRec(T[t]) /\ StartOK(T[t]) }
+        /\ \A t \in X : run[t] = SubOf(T[t])
+
+\* type and (where the script declares one) dbrps of a stored task are the ones derived from its script;
+\* what is not executing is subscribed to nothing
+DerivedFromScript ==
+    /\ \A t \in TaskIds : T[t] # NoTask =>
+          /\ T[t].type = Type(T[t].script)
+          /\ (Implicit(T[t].script) # "none" /\ ~taint => T[t].dbrps = Implicit(T[t].script))
+    /\ \A t \in TaskIds : (t \in X) <=> (run[t] # "")
 
 \* the associations are exactly the memberships the accepted requests created; after a crash
 \* none is missing and a left-over one is inert (it names a task that is gone or belongs elsewhere)
